@@ -421,7 +421,8 @@ def c18_log(rng):
         out.insert(0, G.cs_payload(rng.randrange(100), 10 ** 9, rng.randrange(1 << 40), 0, b'UTC'))
     for c in clocks:
         if rng.random() < 0.2:
-            out.append(G.wp_payload(rng.randrange(4), G.rand_bytes(rng, 3, b'ab'), 0))
+            # writer names are printed (%n): also bytes a C string function would stop at or a terminal would interpret
+            out.append(G.wp_payload(rng.randrange(4), G.rand_bytes(rng, 3, b'ab\x00' if rng.random() < 0.4 else b'ab'), 0))
         if rng.random() < 0.15:
             # a further clock sync in the middle of the log (setClockSync while running, concatenated logs): same or different
             out.append(G.cs_payload(rng.randrange(100), rng.choice([10 ** 9, 10 ** 9, 1000]), rng.randrange(1 << 40), rng.choice([0, 3600]), b'CET'))
